@@ -247,7 +247,9 @@ type XGen struct {
 
 var xmlNames = []string{"a", "b", "c", "item", "k", "A", "Item", "a-b", "x_y", "list", "n1", "a.b", "a-b-c", "X-y-Z", "br", "link", "meta", "_ref"}
 var xmlAttrNames = []string{"id", "x", "a", "Type", "data-v", "k", "lang", "data-v-2", "ID"}
-var xmlTexts = []string{"hello", "x<y", "R&D", "\"q\"", "it's", "]]>", "&amp;", "&#x41;", "a b", " pad ", "1", "3.5", "true", "<![CDATA[", "é", "日本", "&", "<", ">", "-5", "tRuE", "NaN", "1e3", "0x1F", "\ttab", "a&b<c>d\"e'f", "x]]", "&lt;tag&gt;", "00", "T", "f", "1e19", "18446744073709551616", "-3e25", "1000000", "1e6", "9007199254740993", "0.1", "1e-7", "a  b", "l1\nl2", "x \t y", "+12.5", "+3", "C:\\tmp\\", "a\\b", "100%", "%d%s", "12345678901234567", "1234567.8901234567", "-12345678901234567", "1.2345678901234567e-5"}
+var xmlTexts = []string{"hello", "x<y", "R&D", "\"q\"", "it's", "]]>", "&amp;", "&#x41;", "a b", " pad ", "1", "3.5", "true", "<![CDATA[", "é", "日本", "&", "<", ">", "-5", "tRuE", "NaN", "1e3", "0x1F", "\ttab", "a&b<c>d\"e'f", "x]]", "&lt;tag&gt;", "00", "T", "f", "1e19", "18446744073709551616", "-3e25", "1000000", "1e6", "9007199254740993", "0.1", "1e-7", "a  b", "l1\nl2", "x \t y", "+12.5", "+3", "C:\\tmp\\", "a\\b", "100%", "%d%s", "12345678901234567", "1234567.8901234567", "-12345678901234567", "1.2345678901234567e-5",
+	// Unicode white space that is NOT in the documented trim set (\t \r \n and the blank): it stays
+	"\u00a0nbsp\u00a0", "\u2003em", "tail\u3000", "\u00a0", "\u0085x", "\u2028"}
 
 func (r *Rng) xmlNode(g *XGen, depth int) *XNode {
 	n := &XNode{Kind: 'N', Name: r.Pick(g.Names)}
